@@ -263,20 +263,23 @@ def run_sort_vector(vec, tid: str, prop: str, variant: int = 0) -> dict:
     return rec.to_json()
 
 
-def _rep_poly(rep):
-    """MC_Order representation (function row -> coefficient, or <<>>) to a 0-d polynomial in q0, q1."""
+def _rep_poly(rep, swapped=False):
+    """MC_Order representation (function row -> coefficient, or <<>>) to a 0-d polynomial in q0, q1.
+    With `swapped` the same polynomial is stored over the name tuple (q1, q0): storage order must not matter."""
+    names = [1, 0] if swapped else [0, 1]
     if not rep:
-        return build_poly({"shape": [], "names": [0, 1], "rows": [[0, 0]], "coefs": [[0]], "dtype": "int64"})
-    rows = [list(k) for k in rep]
-    return build_poly({"shape": [], "names": [0, 1], "rows": rows, "coefs": [[v] for v in rep.values()], "dtype": "int64"})
+        return build_poly({"shape": [], "names": names, "rows": [[0, 0]], "coefs": [[0]], "dtype": "int64"})
+    rows = [list(reversed(k)) if swapped else list(k) for k in rep]
+    return build_poly({"shape": [], "names": names, "rows": rows, "coefs": [[v] for v in rep.values()], "dtype": "int64"})
 
 
 def run_order_vector(vec, tid: str, prop: str, variant: int = 0) -> dict:
     reset_options()
     rec = Recorder(tid, prop)
     rec.do("set_options", [], keep=False, kw={"sort_graded": vec["graded"], "sort_reverse": vec["reverse"]}, bad=[], prop="C14")
-    a = rec.new(_rep_poly(vec["a"]))
-    b = rec.new(_rep_poly(vec["b"]))
+    swapped = (variant // 8) % 2 == 1          # both operands stored over (q1, q0)
+    a = rec.new(_rep_poly(vec["a"], swapped))
+    b = rec.new(_rep_poly(vec["b"], swapped))
     sps = ("operator", "numpy", "numpoly")
     for n, op in enumerate(("lt", "le", "gt", "ge", "eq", "ne")):
         rec.do("compare", [a, b], keep=False, op=op, spelling=sps[(variant + n) % 3])
@@ -637,8 +640,9 @@ def run_algebra_vector(vec, tid: str, prop: str, variant: int = 0) -> dict:
     import numpy
     reset_options()
     rec = Recorder(tid, prop)
-    a = rec.new(_rep_poly(vec["a"]))
-    b = rec.new(_rep_poly(vec["b"]))
+    swapped = (variant // 16) % 2 == 1
+    a = rec.new(_rep_poly(vec["a"], swapped))
+    b = rec.new(_rep_poly(vec["b"], swapped and variant % 3 != 0))
     if prop == "C06":
         kw = {"retain_names": bool(variant % 2), "retain_coefficients": bool((variant // 2) % 2)}
         rec.do("set_options", [], keep=False, kw=kw, bad=[], prop="C14")
@@ -660,12 +664,15 @@ def run_algebra_vector(vec, tid: str, prop: str, variant: int = 0) -> dict:
         cx = rec.new(carriers[variant % 6](x))
         cy = rec.new(carriers[(variant // 6) % 6](y))
         prod = rec.do("arith", [a, b], op="mul", spelling="operator", prop="C01")
+        from .project import name_id
         for target in [a] + prod[:1]:
-            forms = [({"pos": [2, 3], "kw": []}, [{"name": 0, "arg": 2, "how": "pos"}, {"name": 1, "arg": 3, "how": "pos"}]),
-                     ({"pos": [2], "kw": [["q1", 3]]}, [{"name": 0, "arg": 2, "how": "pos"}, {"name": 1, "arg": 3, "how": "kw"}]),
+            # positional arguments bind to the names in the order the polynomial stores them
+            first, second = [name_id(n) for n in rec.obj(target).names][:2]
+            forms = [({"pos": [2, 3], "kw": []}, [{"name": first, "arg": 2, "how": "pos"}, {"name": second, "arg": 3, "how": "pos"}]),
+                     ({"pos": [2], "kw": [["q%d" % second, 3]]}, [{"name": first, "arg": 2, "how": "pos"}, {"name": second, "arg": 3, "how": "kw"}]),
                      ({"pos": [], "kw": [["q0", 2], ["q1", 3]]}, [{"name": 0, "arg": 2, "how": "kw"}, {"name": 1, "arg": 3, "how": "kw"}]),
-                     ({"pos": [0, 3], "kw": []}, [{"name": 1, "arg": 3, "how": "pos"}]),           # None placeholder: partial
-                     ({"pos": [2], "kw": []}, [{"name": 0, "arg": 2, "how": "pos"}])]
+                     ({"pos": [0, 3], "kw": []}, [{"name": second, "arg": 3, "how": "pos"}]),           # None placeholder: partial
+                     ({"pos": [2], "kw": []}, [{"name": first, "arg": 2, "how": "pos"}])]
             layout, bind = forms[(variant + (target != a)) % len(forms)]
             res = rec.do("call", [target, cx, cy], layout=layout, bind=bind, spelling=("call", "function")[variant % 2])
             if res and len(bind) == 1 and hasattr(rec.obj(res[0]), "names"):
@@ -679,7 +686,9 @@ def run_algebra_vector(vec, tid: str, prop: str, variant: int = 0) -> dict:
         # swap q0 <-> q1 by polynomial arguments
         q0 = rec.new(build_poly({"shape": [], "names": [0], "rows": [[1]], "coefs": [[1]], "dtype": "int64"}))
         q1 = rec.new(build_poly({"shape": [], "names": [1], "rows": [[1]], "coefs": [[1]], "dtype": "int64"}))
-        rec.do("call", [a, q1, q0], keep=False, layout={"pos": [2, 3], "kw": []},
-               bind=[{"name": 0, "arg": 2, "how": "pos"}, {"name": 1, "arg": 3, "how": "pos"}], spelling="call")
+        first, second = [name_id(n) for n in rec.obj(a).names][:2]
+        order = [q1, q0] if first == 0 else [q0, q1]
+        rec.do("call", [a] + order, keep=False, layout={"pos": [2, 3], "kw": []},
+               bind=[{"name": first, "arg": 2, "how": "pos"}, {"name": second, "arg": 3, "how": "pos"}], spelling="call")
     rec.meta["source"] = "MC_Algebra"
     return rec.to_json()
